@@ -844,4 +844,175 @@ Proof.
     replace (FD_MAGICNUMBER =? MAGIC) with true by (vm_compute; reflexivity). rewrite Hrepl, HB.
     eapply blocks_mono; [exact HF|lia].
 Qed.
+
+Lemma rd32_app (p x : list byte) : 4 <= zlen p -> rd32 (p ++ x) = rd32 p.
+Proof.
+  intro H. unfold rd32, ztake. rewrite firstn_app.
+  replace (Z.to_nat 4 - length p)%nat with 0%nat by (unfold zlen in H; lia). simpl. rewrite app_nil_r. reflexivity.
+Qed.
+Lemma nth_error_app_l (p x : list byte) k : (k < length p)%nat -> nth_error (p ++ x) k = nth_error p k.
+Proof. intro H. apply nth_error_app1. exact H. Qed.
+
+Lemma c_storeFrameHeader p l :
+  d_stage (l_s l) = StoreFrameHeader -> d_remaining (l_s l) = 0 -> d_hist (l_s l) = dict -> d_skip (l_s l) = skip ->
+  pre (d_header (l_s l)) (d_tmpInSize (l_s l)) = p -> bytes_ok p = true -> d_oob (l_s l) = false ->
+  0 <= d_tmpInSize (l_s l) < d_tmpInTarget (l_s l) -> d_tmpInTarget (l_s l) <= FD_header_array_size ->
+  hdr_ext (l_s l) -> bytes_ok (l_src l) = true ->
+  stepr p [] l (do_storeFrameHeader l).
+Proof.
+  intros Hst Hrem Hh Hsk Hp Hbp Hoob Hs Ht Hx Hb. unfold do_storeFrameHeader.
+  pose proof (zlen_nonneg (l_src l)) as Hl.
+  set (tg := d_tmpInTarget (l_s l)) in *.
+  set (n := Z.min (tg - d_tmpInSize (l_s l)) (zlen (l_src l))) in *.
+  assert (Hn : 0 <= n <= zlen (l_src l) /\ n <= tg - d_tmpInSize (l_s l)) by (unfold n; lia).
+  set (piece := ztake n (l_src l)).
+  assert (Hpl : zlen piece = n) by (unfold piece; rewrite zlen_ztake; lia).
+  destruct (bytes_ok_split n _ Hb) as [Hbpc _]. fold piece in Hbpc.
+  rewrite (hdr_write_eq (l_s l) piece n) by (auto; lia). ss. fold tg.
+  destruct (stage_facts _ _ piece n p Hp ltac:(lia) Hpl) as (W1 & W2 & W3). rewrite W1.
+  assert (Hbh : bytes_ok (p ++ piece) = true) by (rewrite bytes_ok_app, Hbp, Hbpc; reflexivity).
+  assert (Hsrc : l_src l = piece ++ zdrop n (l_src l)) by (unfold piece; rewrite ztake_zdrop_app; reflexivity).
+  destruct (d_tmpInSize (l_s l) + n <? tg) eqn:E.
+  - apply Z.ltb_lt in E. apply stepr_stop_stage with (x := piece);
+      [unfold FD_BHSize; lia | exact Hsrc | reflexivity | exact Hbpc |].
+    apply C_hdr; ss; auto. apply pre_full. exact W2.
+  - apply Z.ltb_ge in E.
+    assert (Hfull : zlen (p ++ piece) = tg) by lia.
+    rewrite (ztake_all tg (p ++ piece)) by lia.
+    match goal with |- context [decodeHeader ?sb true ?hh] => destruct (decodeHeader sb true hh) as [s' r] eqn:ED end.
+    destruct (r <? 0) eqn:Er; [exact I|]. apply Z.ltb_ge in Er.
+    (* the staged header is at least 7 bytes long *)
+    assert (H7 : FD_minFHSize <= tg).
+    { destruct Hx as [Hx|(_ & X1 & _)]; [fold tg in Hx; lia|lia]. }
+    pose proof (decodeHeader_cases _ _ _ _ _ ED) as (_ & _ & _ & D).
+    pose proof (decodeHeader_keeps _ _ _ _ _ ED) as (K1 & K2 & K3). ss.
+    unfold stepr. cbn [fst snd]. exists piece, []. ss. rewrite app_nil_r.
+    split; [exact Hsrc|]. split; [reflexivity|]. split; [exact Hbpc|].
+    destruct D as [D|[D|[D|[D|D]]]].
+    + exfalso. lia.
+    + destruct D as (_ & D1 & _ & _ & D2).
+      apply C_skip; [rewrite D1; reflexivity | reflexivity | unfold FD_minFHSize in H7; lia | exact D2].
+    + destruct D as (D & _). discriminate D.
+    + destruct D as (Dst & Dsz & Dt & _ & _ & Dh & _). specialize (Dh eq_refl). ss.
+      apply C_hdr; [exact Dst | reflexivity | rewrite K3 by exact Dst; exact Hrem | congruence | congruence
+                   | rewrite Dh, Dsz; apply pre_full; reflexivity | exact Hbh].
+    + destruct D as (Dr & Dst & _).
+      (* the whole staged header was the frame header *)
+      assert (Hrz : r = zlen (p ++ piece)).
+      { destruct (decodeHeader_ret_size _ _ _ _ _ ED Dst) as [R|R]; [|ss; rewrite Hst in R; discriminate R].
+        destruct Hx as [Hx|(X0 & X1 & X2 & FLG & bm & bc & cs & cc & di & N4 & EF & FS)]; [fold tg in Hx; lia|].
+        assert (Hph : p = d_header (l_s l)) by (rewrite <- Hp; apply pre_full; exact X0).
+        assert (Hp7 : 7 <= zlen p) by (rewrite Hph; unfold FD_minFHSize in X1; lia).
+        rewrite (headerSize_fh (p ++ piece) FLG bm bc cs cc di) in R.
+        - fold tg in FS. lia.
+        - rewrite <- R. lia.
+        - rewrite rd32_app by lia. rewrite Hph. exact X2.
+        - rewrite nth_error_app_l by (unfold zlen in Hp7; lia). rewrite Hph. exact N4.
+        - exact EF. }
+      replace (p ++ piece) with (ztake r (p ++ piece)) at 1 by (apply ztake_all; lia).
+      eapply accept_CInv; eauto; ss; try congruence; try lia.
+Qed.
+
+Lemma c_getFrameHeader l :
+  d_stage (l_s l) = GetFrameHeader -> d_remaining (l_s l) = 0 -> d_hist (l_s l) = dict -> d_skip (l_s l) = skip ->
+  d_oob (l_s l) = false -> bytes_ok (l_src l) = true ->
+  stepr [] [] l (do_getFrameHeader l).
+Proof.
+  intros Hst Hrem Hh Hsk Hoob Hb. unfold do_getFrameHeader.
+  pose proof (zlen_nonneg (l_src l)) as Hl.
+  destruct (FD_maxFHSize <=? zlen (l_src l)) eqn:E19.
+  - apply Z.leb_le in E19. unfold FD_maxFHSize in E19.
+    destruct (decodeHeader (l_s l) false (l_src l)) as [s' r] eqn:ED.
+    destruct (r <? 0) eqn:Er; [exact I|]. apply Z.ltb_ge in Er.
+    pose proof (decodeHeader_cases _ _ _ _ _ ED) as (_ & _ & _ & D).
+    assert (Hr : 0 <= r <= zlen (l_src l)).
+    { destruct D as [D|[D|[D|[D|D]]]]; [lia|destruct D as (D & _); discriminate D| | |]; unfold FD_minFHSize in *; lia. }
+    destruct (bytes_ok_split r _ Hb) as [Hbx _].
+    unfold stepr. cbn [fst snd]. exists (ztake r (l_src l)), []. ss.
+    split; [rewrite ztake_zdrop_app; reflexivity|]. split; [rewrite app_nil_r; reflexivity|]. split; [exact Hbx|]. cbn [app].
+    destruct D as [D|[D|[D|[D|D]]]].
+    + exfalso. lia.
+    + destruct D as (D & _). discriminate D.
+    + destruct D as (_ & D1 & _ & D2 & D3). subst r.
+      assert (H4 : zlen (ztake 4 (l_src l)) = 4) by (rewrite zlen_ztake; lia).
+      apply C_skip; [rewrite D2; reflexivity | reflexivity | lia |].
+      rewrite <- D3. unfold rd32. rewrite (ztake_all 4 (ztake 4 (l_src l))) by lia. reflexivity.
+    + exfalso. unfold FD_header_array_size in D. lia.
+    + destruct D as (_ & Dst & _).
+      eapply accept_CInv; eauto; try congruence. unfold FD_minFHSize; lia.
+  - apply Z.leb_gt in E19.
+    destruct (zlen (l_src l) =? 0) eqn:E0; [exact I|].
+    match goal with |- stepr _ _ _ (do_storeFrameHeader (with_s _ ?S)) => apply stepr_with_s with (s := S) end.
+    apply c_storeFrameHeader; ss; auto; try (unfold FD_minFHSize, FD_header_array_size; lia).
+    left. reflexivity.
+Qed.
+
+Lemma c_init d maxb p l :
+  binv skip d maxb dict [] (do_init (l_s l)) -> Kc p (E_header bdec skip d maxb dict []) -> bytes_ok (l_src l) = true ->
+  stepr p [] l (do_getBlockHeader (with_s l (do_init (l_s l)))).
+Proof.
+  intros B HK Hb. apply stepr_with_s with (s := do_init (l_s l)).
+  apply (c_getBlockHeader d maxb); [exact B|exact HK|exact Hb].
+Qed.
+
+(* ---- skippable frames: nothing is produced; the magic number stays at the front of what was consumed ---- *)
+Definition skp (p : list byte) : Prop := 4 <= zlen p /\ Z.land (rd32 p) SKIP_MASK = FD_MAGIC_SKIPPABLE_START.
+Lemma skp_app p x : skp p -> skp (p ++ x).
+Proof. intros [A B]. split; [rewrite zlen_app; pose proof (zlen_nonneg x); lia|rewrite rd32_app by exact A; exact B]. Qed.
+
+Lemma u_sframeSize pn l sel : skp pn -> after pn [] l (do_sframeSize l sel).
+Proof.
+  intros [A B]. unfold do_sframeSize, after. cbn [fst snd]. exists []. ss.
+  split; [reflexivity|]. split; [rewrite app_nil_r; reflexivity|]. apply C_skip; ss; auto.
+Qed.
+
+Lemma c_storeSFrameSize p l :
+  d_stage (l_s l) = StoreSFrameSize -> skp p -> bytes_ok (l_src l) = true ->
+  0 <= d_tmpInSize (l_s l) < d_tmpInTarget (l_s l) ->
+  stepr p [] l (do_storeSFrameSize l).
+Proof.
+  intros Hst Hp Hb Hs. unfold do_storeSFrameSize, hdr_write. ss.
+  pose proof (zlen_nonneg (l_src l)) as Hl.
+  set (n := Z.min (d_tmpInTarget (l_s l) - d_tmpInSize (l_s l)) (zlen (l_src l))) in *.
+  assert (Hn : 0 <= n <= zlen (l_src l) /\ n <= d_tmpInTarget (l_s l) - d_tmpInSize (l_s l)) by (unfold n; lia).
+  destruct (bytes_ok_split n _ Hb) as [Hbp _].
+  destruct (d_tmpInSize (l_s l) + n <? d_tmpInTarget (l_s l)) eqn:E.
+  - apply Z.ltb_lt in E. apply stepr_stop_stage with (x := ztake n (l_src l));
+      [lia | ss; rewrite ztake_zdrop_app; reflexivity | reflexivity | exact Hbp |].
+    destruct (skp_app p (ztake n (l_src l)) Hp) as [A B]. apply C_skip; ss; auto. rewrite Hst. reflexivity.
+  - match goal with |- stepr _ _ _ (do_sframeSize ?l1 _) =>
+      eapply (after_stepr p [] l l1 n); [lia|exact Hb|reflexivity|reflexivity|] end.
+    apply u_sframeSize. apply skp_app. exact Hp.
+Qed.
+
+Lemma c_getSFrameSize p l :
+  skp p -> bytes_ok (l_src l) = true -> stepr p [] l (do_getSFrameSize l).
+Proof.
+  intros Hp Hb. unfold do_getSFrameSize. pose proof (zlen_nonneg (l_src l)) as Hl.
+  destruct (4 <=? zlen (l_src l)) eqn:E.
+  - apply Z.leb_le in E.
+    eapply (after_stepr p [] l (adv l 4) 4); [lia|exact Hb|reflexivity|reflexivity|].
+    apply u_sframeSize. apply skp_app. exact Hp.
+  - match goal with |- stepr _ _ _ (do_storeSFrameSize (with_s _ ?S)) => apply stepr_with_s with (s := S) end.
+    apply c_storeSFrameSize; ss; auto. lia.
+Qed.
+
+Lemma c_skipSkippable p l :
+  d_stage (l_s l) = SkipSkippable -> skp p -> bytes_ok (l_src l) = true -> 0 <= d_tmpInTarget (l_s l) ->
+  stepr p [] l (do_skipSkippable l).
+Proof.
+  intros Hst Hp Hb Ht. unfold do_skipSkippable. ss.
+  pose proof (zlen_nonneg (l_src l)) as Hl.
+  set (n := Z.min (d_tmpInTarget (l_s l)) (zlen (l_src l))) in *.
+  assert (Hn : 0 <= n <= zlen (l_src l) /\ n <= d_tmpInTarget (l_s l)) by (unfold n; lia).
+  destruct (bytes_ok_split n _ Hb) as [Hbp _].
+  destruct (skp_app p (ztake n (l_src l)) Hp) as [A B].
+  destruct (d_tmpInTarget (l_s l) - n =? 0) eqn:E; cbn [negb].
+  - unfold stepr. cbn [fst snd Z.eqb]. exists (ztake n (l_src l)), []. ss.
+    split; [rewrite ztake_zdrop_app; reflexivity|]. split; [rewrite app_nil_r; reflexivity|]. split; [exact Hbp|].
+    right. auto.
+  - apply Z.eqb_neq in E. apply stepr_stop_stage with (x := ztake n (l_src l));
+      [exact E | ss; rewrite ztake_zdrop_app; reflexivity | reflexivity | exact Hbp |].
+    apply C_skip; ss; auto. rewrite Hst. reflexivity.
+Qed.
 End Chunk.
